@@ -34,6 +34,14 @@ CHECKS = {
    technique="explicit-state BFS over operation sequences split by flush/VACUUM/close-reopen on the real engine, model carried across reopen",
    text="Every sequence (to the completed depth) of DML/DDL (unique table, second table with multi-page overflow rows, rollbacks, DROP TABLE, flush, VACUUM) split at arbitrary points by close/reopen; after every history without an open session the database is additionally closed, reopened (in the second search with a different DBConfig than it was created with: page size 8192 vs 4096, cache 64 vs 10000, min keys 4 vs 3) and every table read back and compared with the model; probe inserts after reopen check that constraints, row ids and object ids carried over.",
    note="Trusted: the reference model; two creation-time configurations; the >8192-transaction part of the property (aborted-transaction bitmap) is not covered in the quick tier."),
+ "C10": dict(engine="btree", cat=MC, ref="7/C10",
+   technique="explicit-state BFS over operation sequences on the real B+tree over the real pager (verif facade), conformance to an ordered-map model plus a page-graph audit after every operation",
+   text="Every sequence (to the completed depth) of put/insert/update/remove with payload size classes {8 B, 200 B, 300 B, 1/4 page, 1/3 page, 1.5 pages, 3 pages} on four colliding keys from the empty tree, and of runs of 1/7/14 inserts and removes in three key regions plus one insert above EACH of the 120 seed keys from pre-grown 3-level trees (ascending and descending builds, 200 B and 300 B rows, siblings 1 and 2), for BigUInt, Int (negative), Text (prefix-related) and composite keys; after every operation every key ever used is looked up, the tree is scanned forwards and backwards against a BTreeMap, and the page graph dumped from the real pages is audited: key order within pages and across the leaf chain, separator bounds, equal leaf depth, sibling links mirroring key order, no empty non-root page.",
+   note="Trusted: the facade's pass-through and data export, the map model and the audit code in the harness. Occupancy thresholds are not asserted. Rows of a quarter page or more are explored from the empty tree on four keys only (larger trees of such rows hit further genuine rebalancing defects recorded in DESIGN.md)."),
+ "C11": dict(engine="btree", cat=MC, ref="7/C11",
+   technique="explicit-state BFS over operation sequences on two real B+trees sharing one pager, whole-file page-ownership audit computed from raw page dumps after every operation",
+   text="Every sequence (to the completed depth) of puts of 8 B..3-page rows, removes, runs of inserts/removes, growth and whole-tree deallocation of a second tree, from the empty file and from a 3-level first tree; after every operation every page id of the file must be reached exactly once (tree node of exactly one tree, link of exactly one overflow chain referenced by exactly one cell, or member of the acyclic free list that agrees with its recorded head and tail), and the file must not grow while previously free pages stay free.",
+   note="Decided at the tree/pager level that the property anchors; the SQL-level catalogue walk is not part of this check. One listed finding (interior separators alias the overflow chain of their leaf copy) is applied only to audit failures of exactly that shape."),
  "C13": dict(engine="seq", cat=MC, ref="7/C13",
    technique="explicit-state BFS over operation sequences with VACUUM at every position on the real engine; VACUUM is a no-op in the reference model",
    text="Every sequence (to the completed depth) of committed and rolled-back inserts/updates/deletes, table create/drop, VACUUM (any position, repeated) and reopen, on a plain and on a unique-indexed table; VACUUM changes nothing in the reference model, so every later answer must equal the model's; every history without an open session is additionally followed by VACUUM + fresh read. Plus a bounded-storage run: (3 updates of each of 8 rows; VACUUM)^n must not grow the file after the first cycle.",
@@ -79,6 +87,8 @@ m = {
    "source_commits": hook_commits,
    "add_only": True},
  "engines": [
+   {"name": "btree", "path": "harness/src/engines/btree.rs", "serves_properties": ["C10", "C11"],
+    "kind_free_text": "explicit-state BFS over tree operation sequences on the real Btree/Pager via the verif facade; ordered-map model, page-graph structure audit and whole-file ownership audit evaluated in the harness from raw page dumps"},
    {"name": "crash", "path": "harness/src/engines/crash.rs", "serves_properties": [k for k,v in CHECKS.items() if v["engine"]=="crash"],
     "kind_free_text": "fault enumeration: the seq engine's histories run under an I/O tap; every prefix of the file-mutation stream (and, for C08, of the recovery's own stream) is rebuilt and reopened"},
    {"name": "wal", "path": "harness/src/engines/wal.rs", "serves_properties": ["C17"],
